@@ -161,7 +161,7 @@ func rulesC20(c *Ctx) {
 		okSort := false
 		for _, ci := range Calls(f) {
 			n := c.P.Describe(ci).Name
-			if n == "slices.Sort" || strings.HasPrefix(n, "sort.") {
+			if n == "slices.Sort" || strings.HasPrefix(n, "sort.") || n == "slices.Sorted" {
 				okSort = true
 			}
 		}
